@@ -45,6 +45,7 @@ def expr_texts(terms, skip):
 
 def run(prog, rep):
     cd = Codecs(prog)
+    cd.flag_errors(rep)
     rep.explanation = (
         "the reserved positions are taken from the reference layout table; at each of them the reader's term must be a skip "
         "or a raw read whose value has no use (def-use over the decoder's terms: pad-no-flow) and must not be consumed by an "
@@ -88,7 +89,8 @@ def run(prog, rep):
                 st = t.stmt
                 if st is not None:
                     for c in ast.walk(st):
-                        if isinstance(c, ast.Call) and c is not t.node and any(x is t.node for x in ast.walk(c)) and isinstance(c.func, ast.Name):
+                        same = lambda x: isinstance(x, ast.Call) and (getattr(x, "lineno", -1), getattr(x, "col_offset", -1)) == (getattr(t.node, "lineno", -2), getattr(t.node, "col_offset", -2))
+                        if isinstance(c, ast.Call) and not same(c) and any(same(x) for x in ast.walk(c)) and isinstance(c.func, ast.Name):
                             k = prog.resolve_class(f.module, c.func.id)
                             if k is not None and prog.is_enum(k):
                                 interpreted = f"{c.func.id}(...) conversion raises on values that are not members"
